@@ -3,13 +3,15 @@ import ConserveModel.Apath
 import ConserveModel.ApathSpec
 import ConserveModel.Driver.Blake
 import ConserveModel.Driver.Glob
+import ConserveModel.Driver.Diff
+import ConserveModel.Driver.Mtime
 import ConserveModel.Driver.Ops
 /-
 cvmodel: line-protocol driver for the executable model.
 One request per line; the answer is zero or more lines followed by a line ".".
 Unknown or malformed requests answer `bad-op` (the driver never defaults).
 -/
-open Conserve
+open Conserve Conserve.DM
 
 def handle (toks : List String) : List String :=
   match toks with
@@ -44,7 +46,7 @@ def handleStateless (toks : List String) : List String :=
   match handleBlake toks with
   | some r => r
   | none =>
-    match handleGlob toks with
+    match [handleGlob, handleDiff, handleMtime].findSome? (fun h => h toks) with
     | some r => r
     | none => handle toks
 
